@@ -26,6 +26,8 @@ int main(int argc, char **argv) {
   static VecInterp<TheV> I(VF_NAME);
   I.relocate_enabled = (prop == 14);
   I.within_n = (prop == 5);
+  for (int q = 1; q + 1 < argc; ++q)
+    if (!strcmp(argv[q], "--portability")) I.portability = atoi(argv[q + 1]);
   uint32_t w[kVecNumOps];
   vec_weights(prop, w);
   return interp_main(argc, argv, I, w, kVecNumOps, &vec_feat_name);
